@@ -61,18 +61,28 @@ class Pit1d(Named):
 
 
 class Net2d(Named):
-    """Conv2d/BN/ReLU, residual add, Linear/BN1d head"""
-    def __init__(s, c=4, head_bn=False, scheme=0):
+    """Conv2d/BN/ReLU, residual add, Linear/BN1d head; radd = 2 / 3: the SAME two operand tensors are added again further on
+    (h = conv(a + b); out = h + (a + b) [+ (a + b)]): additions with identical operand nodes"""
+    def __init__(s, c=4, head_bn=False, scheme=0, radd=0):
         super().__init__(scheme)
         s.put('c', nn.Conv2d(3, c, 3, padding=1)); s.put('bn', nn.BatchNorm2d(c)); s.put('r', nn.ReLU())
         s.put('c2', nn.Conv2d(c, c, 3, padding=1)); s.put('r2', nn.ReLU())
+        s.radd = radd
+        if radd:
+            s.put('c3', nn.Conv2d(c, c, 3, padding=1))
         s.put('p', nn.AdaptiveAvgPool2d(1)); s.put('f', nn.Flatten()); s.put('l', nn.Linear(c, 5))
         s.head_bn = head_bn
         if head_bn:
             s.put('bn1', nn.BatchNorm1d(5)); s.put('l2', nn.Linear(5, 3))
 
     def forward(s, x):
-        a = s.g('r')(s.g('bn')(s.g('c')(x))); b = s.g('r2')(s.g('c2')(a)); y = s.g('l')(s.g('f')(s.g('p')(a + b)))
+        a = s.g('r')(s.g('bn')(s.g('c')(x))); b = s.g('r2')(s.g('c2')(a))
+        t = a + b
+        if s.radd:
+            t = s.g('c3')(t) + (a + b)
+            if s.radd >= 3:
+                t = t + (a + b)
+        y = s.g('l')(s.g('f')(s.g('p')(t)))
         if s.head_bn:
             y = s.g('l2')(torch.relu(s.g('bn1')(y)))
         return y
@@ -124,13 +134,13 @@ def build(cfg, inst=0):
     torch.manual_seed(cfg['seed'])
     m, o = cfg['method'], cfg['opts']
     if m == 'PIT':
-        net = Pit1d(o.get('k', 5), o.get('stride2', False), o.get('names', 0)) if cfg['net'] == 'pit1d' else Net2d(4, o.get('head_bn', False), o.get('names', 0))
+        net = Pit1d(o.get('k', 5), o.get('stride2', False), o.get('names', 0)) if cfg['net'] == 'pit1d' else Net2d(4, o.get('head_bn', False), o.get('names', 0), o.get('radd', 0))
         net.train(o.get('seed_training', True))
         wrapper_rng(cfg, inst)
         return PIT(net, input_shape=input_shape(cfg), cost={'params': params, 'ops': ops}, discrete_cost=o.get('discrete_cost', False),
                    fold_bn=o.get('fold_bn', False), full_cost=o.get('full_cost', False))
     if m == 'MPS':
-        net = Net2d(o.get('c', 3), o.get('head_bn', False), o.get('names', 0))
+        net = Net2d(o.get('c', 3), o.get('head_bn', False), o.get('names', 0), o.get('radd', 0))
         net.train(o.get('seed_training', True))
         wrapper_rng(cfg, inst)
         return MPS(net, input_shape=input_shape(cfg), cost={'pbit': params_bit, 'obit': ops_bit},
